@@ -165,9 +165,9 @@ def run(ctx):
     uni = F.universal_rpus(conv, [r for r, _ in pool])
     chunks = [64, 257, 4096, None]
     jobs = []
-    n_chain = 260 if quick else 3000
-    n_pair = 100 if quick else 1000
-    n_len = 100 if quick else 1000
+    n_chain = 400 if quick else 3000
+    n_pair = 150 if quick else 1000
+    n_len = 150 if quick else 1000
     n_big = 3 if quick else 30
 
     def mk_stream(r, nfr, **kw):
